@@ -58,7 +58,18 @@ impl Request {
         PARSER_HASH_TABLE.keys().map(|x| x.to_string()).collect()
     }
     pub fn parse(input: &str) -> Result<Request, String> {
-        let mut command = input.trim_end_matches(';').splitn(3, " ");
+        // A command is one line. The http and ws transports are not line based, so an argument
+        // (a key) could carry a line break; keys are copied into the replication stream, which is
+        // line based and read by the other nodes as an administrator: the text after the break
+        // would run there as a command of its own. Values already drop their line breaks, the
+        // same is done here once for every argument (the command word is left as it came).
+        let mut word_and_arguments = input.trim_end_matches(';').splitn(2, " ");
+        let word = word_and_arguments.next().unwrap_or("");
+        let line = match word_and_arguments.next() {
+            Some(arguments) => format!("{} {}", word, arguments.replace("\n", "")),
+            None => word.to_string(),
+        };
+        let mut command = line.splitn(3, " ");
         match command.next() {
             Some("") | None => {
                 log::debug!("empty command");
